@@ -151,13 +151,21 @@ def translate_source():
     h.update(open(os.path.join(ROOT, "tools/cxxassign2coq.py"), "rb").read())
     h.update(open(os.path.join(ROOT, "tools/cxxcreators2coq.py"), "rb").read())
     h.update(open(os.path.join(ROOT, "tools/cxxopnodes2coq.py"), "rb").read())
+    h.update(open(os.path.join(ROOT, "tools/cxxlayout2coq.py"), "rb").read())
     for f in ("lib/prng/randombytes.cpp", "lib/prng/fastrandombytes.cpp", "include/nfl/prng/randombytes.h"):
         if os.path.exists(os.path.join(REPO, f)): h.update(open(os.path.join(REPO, f), "rb").read())
     tag = "(* source-hash %s *)" % h.hexdigest()
-    dst = os.path.join(COQ, "gen/Gen.v"); dstv = os.path.join(COQ, "gen/GenVec.v"); dstl = os.path.join(COQ, "gen/GenLoop.v"); dstg = os.path.join(COQ, "gen/GenGmp.v"); dsto = os.path.join(COQ, "gen/GenOs.v"); dstp = os.path.join(COQ, "gen/GenPerm.v"); dstpp = os.path.join(COQ, "gen/GenPolyP.v"); dsteb = os.path.join(COQ, "gen/GenExprBool.v"); dsthw = os.path.join(COQ, "gen/GenHwt.v"); dsttx = os.path.join(COQ, "gen/GenText.v"); dstas = os.path.join(COQ, "gen/GenAssign.v"); dstcr = os.path.join(COQ, "gen/GenCreators.v"); dston = os.path.join(COQ, "gen/GenOpNodes.v")
+    dst = os.path.join(COQ, "gen/Gen.v"); dstv = os.path.join(COQ, "gen/GenVec.v"); dstl = os.path.join(COQ, "gen/GenLoop.v"); dstg = os.path.join(COQ, "gen/GenGmp.v"); dsto = os.path.join(COQ, "gen/GenOs.v"); dstp = os.path.join(COQ, "gen/GenPerm.v"); dstpp = os.path.join(COQ, "gen/GenPolyP.v"); dsteb = os.path.join(COQ, "gen/GenExprBool.v"); dsthw = os.path.join(COQ, "gen/GenHwt.v"); dsttx = os.path.join(COQ, "gen/GenText.v"); dstas = os.path.join(COQ, "gen/GenAssign.v"); dstcr = os.path.join(COQ, "gen/GenCreators.v"); dston = os.path.join(COQ, "gen/GenOpNodes.v"); dstly = os.path.join(COQ, "gen/GenLayout.v")
     with Lock("translate_source"):
-        if all(os.path.exists(d) and tag in open(d).read(200) for d in (dst, dstv, dstl, dstg, dsto, dstp, dstpp, dsteb, dsthw, dsttx, dstas, dstcr, dston)):
+        if all(os.path.exists(d) and tag in open(d).read(200) for d in (dst, dstv, dstl, dstg, dsto, dstp, dstpp, dsteb, dsthw, dsttx, dstas, dstcr, dston, dstly)):
             return True, "cached"
+        # the storage layout of poly (poly.hpp)
+        tmply = dstly + ".tmp"
+        rcly, outly = sh([sys.executable, os.path.join(ROOT, "tools/cxxlayout2coq.py"), REPO, tmply], timeout=900)
+        if rcly != 0 or not os.path.exists(tmply):
+            open(dstly, "w").write(tag + "\n(* translation failed: %s *)\n" % outly[-500:].replace("*)", "* )"))
+        else:
+            open(dstly, "w").write(tag + "\n" + open(tmply).read()); os.remove(tmply)
         # the expression nodes the operators build (ops.hpp)
         tmpon = dston + ".tmp"
         rcon, outon = sh([sys.executable, os.path.join(ROOT, "tools/cxxopnodes2coq.py"), REPO, tmpon], timeout=900)
@@ -288,9 +296,9 @@ def coq_eval(name, header, terms, timeout=600):
 
 # ---------------------------------------------------------------- prove
 def coq_makefile():
-    if not all(os.path.exists(os.path.join(COQ, g)) for g in ("gen/Gen.v", "gen/GenVec.v", "gen/GenLoop.v", "gen/GenGmp.v", "gen/GenOs.v", "gen/GenPerm.v", "gen/GenPolyP.v", "gen/GenExprBool.v", "gen/GenHwt.v", "gen/GenText.v", "gen/GenAssign.v", "gen/GenCreators.v", "gen/GenOpNodes.v")):
+    if not all(os.path.exists(os.path.join(COQ, g)) for g in ("gen/Gen.v", "gen/GenVec.v", "gen/GenLoop.v", "gen/GenGmp.v", "gen/GenOs.v", "gen/GenPerm.v", "gen/GenPolyP.v", "gen/GenExprBool.v", "gen/GenHwt.v", "gen/GenText.v", "gen/GenAssign.v", "gen/GenCreators.v", "gen/GenOpNodes.v", "gen/GenLayout.v")):
         translate_source()
-    vs = sorted(f for f in os.listdir(COQ) if f.endswith(".v") and f != "Extract.v") + ["gen/Params.v", "gen/Gen.v", "gen/GenVec.v", "gen/GenLoop.v", "gen/GenGmp.v", "gen/GenOs.v", "gen/GenPerm.v", "gen/GenPolyP.v", "gen/GenExprBool.v", "gen/GenHwt.v", "gen/GenText.v", "gen/GenAssign.v", "gen/GenCreators.v", "gen/GenOpNodes.v"]
+    vs = sorted(f for f in os.listdir(COQ) if f.endswith(".v") and f != "Extract.v") + ["gen/Params.v", "gen/Gen.v", "gen/GenVec.v", "gen/GenLoop.v", "gen/GenGmp.v", "gen/GenOs.v", "gen/GenPerm.v", "gen/GenPolyP.v", "gen/GenExprBool.v", "gen/GenHwt.v", "gen/GenText.v", "gen/GenAssign.v", "gen/GenCreators.v", "gen/GenOpNodes.v", "gen/GenLayout.v"]
     txt = "-Q . NTT\n" + "\n".join(vs) + "\n"
     p = os.path.join(COQ, "_CoqProject")
     if not os.path.exists(p) or open(p).read() != txt or not os.path.exists(os.path.join(COQ, "Makefile")):
